@@ -221,11 +221,12 @@ PLAN = {
              "derive-decoded items (sync managers, FMMUs, PDOs, general, identity: wire layouts = C19) are not under a functional contract",
     ),
     "C13": dict(
-        verus=["eeprom_range", "subdevice_eeprom", "eeprom_items"], kani=[], level="proof",
+        verus=["eeprom_range", "subdevice_eeprom", "eeprom_items", "pdi_config"], kani=[], level="proof",
         claim="no overflow / out-of-bounds / panic and termination of EepromRange::{new,skip_ahead_bytes,read_byte,read,write}, read_exact, write_all, start_at, size, the "
               "category walk (terminates: measure 0x10000 - word address; no overflow of the chain) and the find_string fragment (incl. the SAFETY condition of the unsafe "
               "set_len: length <= capacity, carried as a precondition - rule R17), and the item loops pdos / fmmu_mappings / sync_managers (terminate: every item "
               "consumes window bytes; capacity errors instead of panics; bit-length sum cannot overflow) for arbitrary memory contents (Verus automatic obligations)",
-        note="provider contract assumed; the PDO bit-length sums of configuration.rs (iterator adapters) are not under contract",
+        note="provider contract assumed; PdiOffset::increment_byte_aligned and write_fmmu_config (unit pdi_config) take ANY 16-bit bit length without overflow; the PDO "
+             "bit-length sum of configure_pdos_eeprom itself (iterator adapters: filter/map/try_fold) is not under contract - its repair (D28) is guarded by the demonstration only",
     ),
 }
